@@ -2129,7 +2129,7 @@ func (p *Parser) parseFields() (Fields, error) {
 		fields = append(fields, f)
 
 		// If there's not a comma next then stop parsing fields.
-		if tok, _, _ := p.Scan(); tok != COMMA {
+		if tok, _, _ := p.ScanIgnoreWhitespace(); tok != COMMA {
 			p.Unscan()
 			break
 		}
@@ -2372,7 +2372,7 @@ func (p *Parser) parseDimensions() (Dimensions, error) {
 		dimensions = append(dimensions, d)
 
 		// If there's not a comma next then stop parsing dimensions.
-		if tok, _, _ := p.Scan(); tok != COMMA {
+		if tok, _, _ := p.ScanIgnoreWhitespace(); tok != COMMA {
 			p.Unscan()
 			break
 		}
